@@ -64,7 +64,7 @@ def evalBtcM (testnet : Bool) (s : Bytes) : Out Eval :=
   let hrp := if testnet then "tb" else "bc"
   if s.head? = some 0x6a then
     let payload := match ((instrs s)[1]? : Option (Option Ins)) with
-      | some (some (Ins.push d)) => if (ByteArray.mk d.toArray).validateUTF8 then d else []
+      | some (some (Ins.push d)) => if L.valid d then d else []
       | _ => []
     .ok ⟨.opReturn payload, none⟩
   else if unspendableFirst s then .ok ⟨.unspendable, none⟩
